@@ -59,12 +59,34 @@ def rules_xml(req, formula=None):
 class Live:
     """One live node (n1 of a 2-instance cluster in OPERATION) holding application 'app' = p1, p2, q1."""
 
-    def __init__(self, req, formula=None):
+    def __init__(self, req, formula=None, grown=False):
         from simcluster import Cluster
         progs = [{'name': n, 'groups': ['app']} for n in NAMES]
         layout = {f'n{i}': {'host': i, 'port': 60000 + i, 'programs': progs} for i in (1, 2)}
-        self.c = Cluster(layout, options={'synchro_options': 'STRICT'}, rules_xml=rules_xml(req, formula))
-        self.c.boot_all()
+        if grown:
+            # the application grows: n1 only configures p1 and q1, the status is evaluated (p1 started), then n2 joins
+            # and brings p2
+            layout['n1']['programs'] = [x for x in progs if x['name'] != 'p2']
+            self.c = Cluster(layout, options={'synchro_options': 'LIST,TIMEOUT', 'synchro_timeout': '15'},
+                             rules_xml=rules_xml(req, formula))
+            self.c.boot('n1')
+            for _ in range(8):
+                self.c.round()
+            self.c.rpc('n1', 'startProcess', 'app:p1', False, ns='supervisor')
+            for _ in range(3):
+                self.c.round()
+            self.c.rpc('n1', 'get_application_info', 'app')
+            self.c.rpc('n1', 'stopProcess', 'app:p1', False, ns='supervisor')
+            self.c.round()
+            for n, node in self.c.nodes.items():
+                if node.alive:
+                    for ns, proc in list(node.processes()):
+                        if proc.state == 40 and proc.pid:
+                            self.c.proc_killed(n, ns)
+            self.c.boot('n2')
+        else:
+            self.c = Cluster(layout, options={'synchro_options': 'STRICT'}, rules_xml=rules_xml(req, formula))
+            self.c.boot_all()
         for _ in range(8):
             self.c.round()
         if self.c.fsm_state('n1') != 'OPERATION':
@@ -238,6 +260,24 @@ def main(tier, seed, replay=None):
                 v.violation(f'formula {src}: definition major={fo["major"]} for the 8 assignments, code={out} '
                             f'(accepted={accepted})', {'formula': src, 'expected': fo['major'], 'got': out})
         v.sample({'formula': render(forms[len(forms) // 2]['t']), 'major_per_assignment': forms[len(forms) // 2]['major']})
+        # (b') the same formulas on an application that grew after its status was first evaluated (p2 arrives with a
+        # late joiner): the patterns must see the processes added since
+        lv.close()
+        lv = Live((False, False, False), formula='all("p.")', grown=True)
+        for fo in forms:
+            src = render(fo['t'])
+            if '"p' not in src or '.' not in src:
+                continue
+            res, err = evaluate(src, 'tree')
+            n_eval += 8
+            if res is None:
+                v.violation(f'formula {src} (grown application): {err}', {'formula': src})
+                continue
+            accepted, out = res
+            if not accepted or out != fo['major']:
+                v.violation(f'formula {src} on an application that grew after a first evaluation: definition '
+                            f'major={fo["major"]} for the 8 assignments, code={out}',
+                            {'formula': src, 'expected': fo['major'], 'got': out, 'grown': True})
         # (c) unsupported constructs: major failure whatever the process states, no error, no side effect
         # (a formula refused at load time leaves the application without formula: then the no-formula rule applies;
         #  with no required process that gives no major failure, so 'accepted' is told apart)
